@@ -40,6 +40,7 @@ func apiResume(w *lib.Writer, tier string, seed uint64) {
 			[]step{{n(1, 2), lua.ResumeYield, "[3]"}, {[]lua.LValue{lua.LString("x")}, lua.ResumeOK, "[fin x]"}, {nil, lua.ResumeError, ""}}, true},
 	}
 	firstCallInsideCoroutine(w)
+	awaitOnWrapThread(w)
 	for _, c := range cases {
 		func() {
 			what := ""
@@ -143,5 +144,64 @@ return table and "lib" or (log[1] .. log[2] .. log[3] .. log[4] .. tostring(y))`
 	w.Meta.GoOnlyChecked++
 	if what != "" {
 		w.GoFail(id, "first call of a state inside a coroutine resumed from Go: "+what)
+	}
+}
+
+// awaitOnWrapThread: the host "await" pattern: a Go function parks the running coroutine with
+// L.Yield and the host continues it with LState.Resume -- also when the coroutine was created by
+// coroutine.wrap: values in order and number (a false first value is a value), errors as ResumeError.
+func awaitOnWrapThread(w *lib.Writer) {
+	what := ""
+	for _, maker := range []string{"wrap", "create"} {
+		func() {
+			defer func() {
+				if r := recover(); r != nil && what == "" {
+					what = fmt.Sprintf("%s: Go panic escaped: %v", maker, r)
+				}
+			}()
+			L := lua.NewState()
+			defer L.Close()
+			var parked *lua.LState
+			L.SetGlobal("await", L.NewFunction(func(L *lua.LState) int {
+				parked = L
+				return L.Yield(L.Get(1))
+			}))
+			body := `function(mode) local a = await("pending"); local b = await("p2"); if mode == "err" then error("boom", 0) end; return false, a, b end`
+			start := `local co = coroutine.wrap(` + body + `); co(MODE)`
+			if maker == "create" {
+				start = `local co = coroutine.create(` + body + `); coroutine.resume(co, MODE)`
+			}
+			for _, mode := range []string{"ok", "err"} {
+				L.SetGlobal("MODE", lua.LString(mode))
+				parked = nil
+				if err := L.DoString(start); err != nil || parked == nil {
+					what = fmt.Sprintf("%s/%s: start failed: %v", maker, mode, err)
+					return
+				}
+				st, err, vals := L.Resume(parked, nil, lua.LNumber(10))
+				if st != lua.ResumeYield || err != nil || fmt.Sprint(vals) != "[p2]" {
+					what = fmt.Sprintf("%s/%s: first continue: state=%v err=%v values=%v, expected ResumeYield [p2]", maker, mode, st, err, vals)
+					return
+				}
+				st, err, vals = L.Resume(parked, nil, lua.LNumber(20))
+				if mode == "ok" && (st != lua.ResumeOK || err != nil || fmt.Sprint(vals) != "[false 10 20]") {
+					what = fmt.Sprintf("%s/%s: second continue: state=%v err=%v values=%v, expected ResumeOK [false 10 20]", maker, mode, st, err, vals)
+					return
+				}
+				if mode == "err" && (st != lua.ResumeError || err == nil) {
+					what = fmt.Sprintf("%s/%s: failing body: state=%v err=%v values=%v, expected ResumeError", maker, mode, st, err, vals)
+					return
+				}
+			}
+		}()
+		if what != "" {
+			break
+		}
+	}
+	id := w.Add(lib.Case{Input: map[string]any{"api-resume": "await-pattern-on-wrap-and-create-threads"}, Observed: map[string]any{"failed": what != "", "what": what},
+		Class: "api-resume-await", Nontrivial: true, Coq: "CProg [] (Outcome [] (OOk []))"})
+	w.Meta.GoOnlyChecked++
+	if what != "" {
+		w.GoFail(id, "host continues a parked coroutine with LState.Resume: "+what)
 	}
 }
